@@ -9,4 +9,5 @@ mkdir -p $V/bin
 S=$(mktemp -d)
 trap 'rm -rf "$S"' EXIT
 $V/lib/e1build.sh "$S" >/dev/null
+VERIF_BUILD_MR=1 $V/lib/e2build.sh "$S" >/dev/null
 echo "setup ok"
